@@ -39,6 +39,7 @@ from mashumaro.core.const import (
 from mashumaro.dialect import Dialect
 
 __all__ = [
+    "admits_none",
     "get_type_origin",
     "get_underlying_class",
     "get_args",
@@ -130,6 +131,20 @@ def strip_type_wrappers(typ: Type) -> Type:
             typ = typ.__value__  # type: ignore[attr-defined]
         else:
             return typ
+
+
+def admits_none(typ: Type) -> bool:
+    # whether None is a value of the type: NoneType itself, a union or
+    # a literal that lists it, possibly behind wrappers and nested unions
+    typ = strip_type_wrappers(typ)
+    if typ in (NoneType, None):
+        return True
+    elif is_union(typ):
+        return any(admits_none(arg) for arg in get_args(typ))
+    elif is_literal(typ):
+        return None in get_literal_values(typ)
+    else:
+        return False
 
 
 def is_builtin_type(typ: Type) -> bool:
